@@ -19,6 +19,25 @@ pub struct MagicTable {
 
 impl Default for MagicTable {
     fn default() -> Self {
+        // Verification seam: build the (deterministic) lookup tables once per process and
+        // hand out copies, instead of rebuilding them for every generator.
+        #[cfg(feature = "verif-hooks")]
+        if crate::verif_hooks::share_magic_tables() {
+            static SHARED: std::sync::OnceLock<(Vec<Bitboard>, Vec<Bitboard>)> =
+                std::sync::OnceLock::new();
+            let (rook_table, bishop_table) = SHARED
+                .get_or_init(|| {
+                    crate::verif_hooks::set_share_magic_tables(false);
+                    let built = MagicTable::default();
+                    crate::verif_hooks::set_share_magic_tables(true);
+                    (built.rook_table, built.bishop_table)
+                })
+                .clone();
+            return Self {
+                rook_table,
+                bishop_table,
+            };
+        }
         let rook_table = make_table(
             ROOK_TABLE_SIZE,
             &[(1, 0), (0, -1), (-1, 0), (0, 1)],
